@@ -172,7 +172,22 @@ class ndarray:
     def copy(self):
         return ndarray(self._f, self.shape, sw=self.sw)
 
-    def astype(self, t):
+    def _allkind(self, pred):
+        return bool(self._f) and builtins.all(pred(e) for e in self._f)
+
+    def astype(self, t, copy=True, **kw):
+        if kw:
+            raise ShimUnsupported(f"ndarray.astype keywords {sorted(kw)}")
+        if copy is False or (copy is not True and not copy):
+            # numpy returns the array itself when the dtype already matches
+            isf = t is float or getattr(t, "_is_sym_float", False) or t is _np.float64
+            isi = t is int or getattr(t, "_is_sym_int", False)
+            if isf and self._allkind(lambda e: _isfloatlike(e) and not isinstance(e, bool)):
+                return self
+            if isi and self._allkind(lambda e: (isinstance(e, int) and not isinstance(e, bool)) or getattr(e, "__sym__", None) == "int"):
+                return self
+            if t is bool and self._allkind(lambda e: isinstance(e, bool)):
+                return self
         if t is float or getattr(t, "_is_sym_float", False) or t is _np.float64:
             return ndarray([x if _is_sym(x) else float(x) for x in self._f], self.shape)
         if t is int or getattr(t, "_is_sym_int", False):
@@ -236,6 +251,11 @@ class ndarray:
         if n != len(self._f):
             raise ValueError(f"cannot reshape array of size {len(self._f)} into shape {shape}")
         if order == "C" or len(shape) < 2:
+            if not self.fcontig:
+                # C-order reshape of a C-contiguous array is a view in numpy: share the element buffer
+                v = ndarray([], shape[:0] + (0,), sw=self.sw)
+                v._f, v.shape = self._f, shape
+                return v
             return ndarray(self.flatten()._f, shape, sw=self.sw)
         assert len(shape) == 2
         R, C = shape
@@ -256,9 +276,12 @@ class ndarray:
         if idx is True:
             return ndarray(self._f, (1,) + self.shape)
         if isinstance(idx, ndarray):
-            if idx._f and builtins.all(isinstance(e, bool) for e in idx._f):
-                sel = [v for v, m in zip(self._f, idx._f) if m]
-                return ndarray(sel, (len(sel),))
+            if idx._f and builtins.all(isinstance(e, bool) or getattr(e, "__sym__", None) == "bool" for e in idx._f):
+                # boolean mask; a symbolic element forks the path on its truth value
+                if idx.shape != self.shape and builtins.any(_is_sym(e) for e in idx._f):
+                    raise ShimUnsupported("boolean mask of a different shape with symbolic elements")
+                sel = [v for v, m in zip(self._f, idx._f) if bool(m)]
+                return ndarray(sel, (len(sel),), sw=self.sw)
             idx = idx.tolist()
         if not isinstance(idx, tuple):
             idx = (idx,)
@@ -571,7 +594,10 @@ def array(x, dtype=None):
     return ndarray(flat, shape)
 
 
-asarray = array
+def asarray(x, dtype=None):
+    if isinstance(x, ndarray) and dtype is None:
+        return x   # numpy: no copy when the input already is an array of the requested type
+    return array(x, dtype=dtype)
 
 
 def atleast_1d(x):
